@@ -123,6 +123,30 @@ def reference_initial(G, kind, I0, R0, rho):
         ref['II'] = sum(1 for u in G for v in G[u] if st[u] == 'I' and st[v] == 'I')
         for c in 'SIR':
             ref[c + 's'] = {v: (1 if st[v] == c else 0) for v in G}
+    # ---- pair- and neighbourhood-level quantities (the initial closures assume independent nodes for rho)
+    P = {c: ref[c + 's'] for c in 'SIR'}
+    Ks = sorted(set(deg.values()))
+    nodes = list(G.nodes())
+    for a, b in (('S', 'I'), ('S', 'S'), ('I', 'I')):
+        ref['%sk%sl' % (a, b)] = [[sum(P[a][u] * P[b][v] for u in G for v in G[u] if deg[u] == k and deg[v] == l) for l in Ks] for k in Ks]
+    ref['XY'] = [[(P['S'][u] * P['I'][v] if G.has_edge(u, v) else 0) for v in nodes] for u in nodes]
+    ref['XX'] = [[(P['S'][u] * P['S'][v] if G.has_edge(u, v) else 0) for v in nodes] for u in nodes]
+    # effective degree: number of X nodes with s susceptible and i infected neighbours
+    import math as _m
+    for c in ('S', 'I'):
+        lat = [[0 for i in range(maxk + 1)] for s_ in range(maxk + 1)]
+        if kind == 'rho':
+            for s_ in range(maxk + 1):
+                for i in range(maxk + 1 - s_):
+                    nk = sum(1 for v in G if deg[v] == s_ + i)
+                    lat[s_][i] = ((1 - rho) if c == 'S' else rho) * nk * _m.comb(s_ + i, i) * rho ** i * (1 - rho) ** s_
+        else:
+            for v in G:
+                if st[v] == c:
+                    s_ = sum(1 for w in G[v] if st[w] == 'S')
+                    i = sum(1 for w in G[v] if st[w] == 'I')
+                    lat[s_][i] += 1
+        ref[c + '_si'] = lat
     return ref
 
 
@@ -132,26 +156,26 @@ FULL = {
     'SIR_homogeneous_pairwise_from_graph': ['t', 'S', 'I', 'R', 'SI', 'SS'],
     'SIS_heterogeneous_meanfield_from_graph': ['t', 'S', 'I', 'Sk', 'Ik'],
     'SIR_heterogeneous_meanfield_from_graph': ['t', 'Sk', 'Ik', 'Rk'],
-    'SIS_heterogeneous_pairwise_from_graph': ['t', 'S', 'I', 'SkK', 'IkK', None, None, None],
-    'SIR_heterogeneous_pairwise_from_graph': ['t', 'S', 'I', 'R', 'SkK', 'IkK', 'RkK', None, None],
+    'SIS_heterogeneous_pairwise_from_graph': ['t', 'S', 'I', 'SkK', 'IkK', 'SkIl', 'SkSl', 'IkIl'],
+    'SIR_heterogeneous_pairwise_from_graph': ['t', 'S', 'I', 'R', 'SkK', 'IkK', 'RkK', 'SkIl', 'SkSl'],
     'SIS_compact_pairwise_from_graph': ['t', 'S', 'I', 'Sk', 'Ik', 'SI', 'SS', 'II'],
     'SIS_compact_effective_degree_from_graph': ['t', 'S', 'I', 'Sk', 'Ik', 'SI', 'SS', 'II'],
     'SIR_compact_pairwise_from_graph': ['t', 'Sk', 'I', 'R', 'SS', 'SI'],
     'SIS_super_compact_pairwise_from_graph': ['t', 'S', 'I', 'SS', 'SI', 'II'],
     'SIR_super_compact_pairwise_from_graph': ['t', 'S', 'I', 'R', 'SS', 'SI'],
-    'SIS_effective_degree_from_graph': ['t', 'S', 'I', None, None],
-    'SIR_effective_degree_from_graph': ['t', 'S', 'I', 'R', None],
+    'SIS_effective_degree_from_graph': ['t', 'S', 'I', 'S_si', 'I_si'],
+    'SIR_effective_degree_from_graph': ['t', 'S', 'I', 'R', 'S_si'],
     'SIR_compact_effective_degree_from_graph': ['t', 'S', 'I', 'R', None, 'SI'],
     'EBCM_from_graph': ['t', 'S', 'I', 'R', 'theta'],
-    'EBCM_pref_mix_from_graph': ['t', 'S', 'I', 'R', None],
+    'EBCM_pref_mix_from_graph': ['t', 'S', 'I', 'R', 'thetak'],
     'SIS_individual_based': ['t', 'Ss', 'Is'],
     'SIR_individual_based': ['t', 'S', 'I', 'R', 'Ss', 'Is', 'Rs'],
     'SIS_individual_based_pure_IC': ['t', 'Ss', 'Is'],
     'SIR_individual_based_pure_IC': ['t', 'S', 'I', 'R', 'Ss', 'Is', 'Rs'],
-    'SIS_pair_based': ['t', 'S', 'I', 'Ss', 'Is', None, None],
-    'SIR_pair_based': ['t', 'S', 'I', 'R', 'Ss', 'Is', 'Rs', None, None],
-    'SIS_pair_based_pure_IC': ['t', 'S', 'I', 'Ss', 'Is', None, None],
-    'SIR_pair_based_pure_IC': ['t', 'S', 'I', 'R', 'Ss', 'Is', 'Rs', None, None],
+    'SIS_pair_based': ['t', 'S', 'I', 'Ss', 'Is', 'XY', 'XX'],
+    'SIR_pair_based': ['t', 'S', 'I', 'R', 'Ss', 'Is', 'Rs', 'XY', 'XX'],
+    'SIS_pair_based_pure_IC': ['t', 'S', 'I', 'Ss', 'Is', 'XY', 'XX'],
+    'SIR_pair_based_pure_IC': ['t', 'S', 'I', 'R', 'Ss', 'Is', 'Rs', 'XY', 'XX'],
 }
 
 
@@ -279,6 +303,25 @@ def _run(h, cfg, eng, EoN, an, flow):
                     h.fail('full-data-row0', {'series': nm, 'shape': list(a.shape)})
                 else:
                     h.require('full-data-row0', AND(True, *[EQ(a[j][0], want[j]) for j in range(len(nodes))]), {'series': nm, 'got': show([a[j][0] for j in range(len(nodes))]), 'want': show(want)})
+            elif nm in ('SkIl', 'SkSl', 'IkIl', 'XY', 'XX', 'S_si', 'I_si'):
+                a = np.asarray(val, dtype=object)
+                want = ref[nm]
+                if entry.startswith('SIS') and nm == 'I_si' and cfg['ic'] != 'rho':
+                    # SIS has no recovered class: every non-susceptible neighbour is infected (same thing here, kept explicit)
+                    pass
+                if a.ndim != 3 or a.shape[0] != len(want) or a.shape[1] != len(want[0]):
+                    h.fail('full-data-row0', {'series': nm, 'shape': list(a.shape), 'expected': [len(want), len(want[0])]})
+                else:
+                    conds = [EQ(a[i][j][0], want[i][j]) for i in range(len(want)) for j in range(len(want[0]))]
+                    h.require('full-data-row0', AND(True, *conds), {'series': nm, 'got': show([[a[i][j][0] for j in range(len(want[0]))] for i in range(len(want))]), 'want': show(want)})
+            elif nm == 'thetak':
+                if isinstance(val, dict):
+                    val = [val[k] for k in sorted(val)]
+                a = np.asarray(val, dtype=object)
+                if a.ndim != 2:
+                    h.fail('full-data-row0', {'series': 'theta[k]', 'shape': list(a.shape)})
+                else:
+                    h.require('full-data-row0', AND(True, *[EQ(a[k][0], 1) for k in range(a.shape[0])]), {'series': 'theta[k]'})
             elif nm == 'theta':
                 h.require('full-data-row0', EQ(np.asarray(val, dtype=object)[0], 1), {'series': 'theta'})
     # ---- conservation at an arbitrary flow state (row 1), L5
@@ -427,7 +470,7 @@ def replay_concrete(cfg, kind, values, decisions):
     names = FULL.get(entry) if cfg['full'] else (['t', 'S', 'I', 'R'] if sir else ['t', 'S', 'I'])
     if names is None or len(ret) != len(names):
         return {'reproduced': kind == 'return-shape', 'concrete_detail': {'len': len(ret)}}
-    slot = {n: np.asarray(ret[i], dtype=float) for i, n in enumerate(names) if n}
+    slot = {n: np.asarray(ret[i], dtype=float) for i, n in enumerate(names) if n and n != 'thetak'}
 
     def tot(a):
         return a if a.ndim == 1 else a.sum(axis=0)
@@ -470,5 +513,15 @@ def replay_concrete(cfg, kind, values, decisions):
                 want = np.array([float(ref[nm[:2]][k]) for k in Ks])
                 if a.ndim != 2 or a.shape[0] != len(want) or np.max(np.abs(a[:, 0] - want)) > tol:
                     det[nm] = 'mismatch'
+            if nm in ('SkIl', 'SkSl', 'IkIl', 'XY', 'XX', 'S_si', 'I_si'):
+                want = np.array([[float(x) for x in row] for row in ref[nm]])
+                if a.ndim != 3 or a.shape[:2] != want.shape or np.max(np.abs(a[:, :, 0] - want)) > tol:
+                    det[nm] = {'got': a[:, :, 0].tolist() if a.ndim == 3 else 'shape %s' % (a.shape,), 'want': want.tolist()}
+        if 'thetak' in names:
+            th = ret[names.index('thetak')]
+            th = [th[k] for k in sorted(th)] if isinstance(th, dict) else th
+            th = np.asarray(th, dtype=float)
+            if th.ndim != 2 or np.max(np.abs(th[:, 0] - 1)) > tol:
+                det['theta[k]'] = 'mismatch'
         return {'reproduced': bool(det), 'concrete_detail': det}
     return {'reproduced': False, 'why': 'no concrete replay for kind %s' % kind}
